@@ -13,7 +13,8 @@ TRUSTED = ["extraction + OCaml driver; CPython format decimalisation oracle",
 ASSUMPTIONS = ["user gates are defined with the naming decorator and annotated with QubitLike / Float / SupportsInt"]
 CLASSIFIERS: dict = {}
 PI = math.pi
-USER_SIG = {"myrot": "qf", "u2": "fqf", "swp": "qq", "cph": "qiq", "ccx": "qqq", "g3": "qfif", "flip": "q", "cxy": "qq"}
+USER_SIG = {"myrot": "qf", "u2": "fqf", "swp": "qq", "cph": "qiq", "ccx": "qqq", "g3": "qfif", "flip": "q", "cxy": "qq",
+            "cphase": "qqf", "xx": "qfq"}
 _FUNCS = None
 
 
@@ -61,8 +62,19 @@ def user_functions():
     def cxy(x: QubitLike, y: QubitLike) -> ControlledGate:
         return ControlledGate(x, BlochSphereRotation(qubit=y, axis=(1, 0, 0), angle=math.pi, phase=math.pi / 2))
 
+    @named_gate
+    def cphase(a: QubitLike, b: QubitLike, theta: Float) -> ControlledGate:
+        # written out with explicit cos/sin so that theta and theta + 4 pi denote the same operation
+        t = theta.value
+        return ControlledGate(a, BlochSphereRotation(qubit=b, axis=(0, 0, 1), angle=t, phase=0))
+
+    @named_gate
+    def xx(q1: QubitLike, t: Float, q2: QubitLike) -> MatrixGate:
+        c, s_ = math.cos(t.value / 2), math.sin(t.value / 2)
+        return MatrixGate([[c, 0, 0, -1j * s_], [0, c, -1j * s_, 0], [0, -1j * s_, c, 0], [-1j * s_, 0, 0, c]], [q1, q2])
+
     d = gen.default_functions()
-    d.update({f.__name__: f for f in (myrot, u2, swp, cph, ccx, g3, flip, cxy)})
+    d.update({f.__name__: f for f in (myrot, u2, swp, cph, ccx, g3, flip, cxy, cphase, xx)})
     gen.GATE_SIG.update(USER_SIG)
     _FUNCS = d
     return d
@@ -245,6 +257,38 @@ def run(ctx):
                     ctx.oracle_fail("user_text", case, f"cQASM 1 line `{v1}` not written:\n{t1}", eq)
                     break
     ctx.suite("user_gates", cases=n_cases)
+    # --- equality purely through the operation: the same user gate with arguments that differ but denote the same
+    # operation compares equal; different operations compare unequal; a user gate equals the default gate it denotes
+    eq_cases = []
+    for _ in range(ctx.pick(60, 600)):
+        a, b = gen.rand_qubits(rng, 3, 2)
+        t = rng.choice([0.7, -1.3, 2.0, 0.1])
+        shift = rng.choice([4 * PI, -4 * PI, 8 * PI])
+        near = rng.choice([0.3, -0.2, 1.0])
+        eq_cases += [(["named", "cphase", [a, b, t]], ["named", "cphase", [a, b, t + shift]], True),
+                     (["named", "cphase", [a, b, t]], ["named", "cphase", [a, b, t + near]], False),
+                     (["named", "xx", [a, t, b]], ["named", "xx", [a, t + shift, b]], True),
+                     (["named", "xx", [a, t, b]], ["named", "xx", [b, t, a]], True),
+                     (["named", "xx", [a, t, b]], ["named", "xx", [a, t + near, b]], False),
+                     (["named", "cxy", [a, b]], ["named", "CNOT", [a, b]], True),
+                     (["named", "swp", [a, b]], ["named", "swp", [b, a]], True),
+                     (["named", "cph", [a, 1, b]], ["named", "cph", [a, 2, b]], False),
+                     (["named", "flip", [a]], ["named", "X", [a]], True)]
+    seen_eq = set()
+    objs_l = [gen.build_stmt(l, funcs) for l, _, _ in eq_cases]
+    objs_r = [gen.build_stmt(r, funcs) for _, r, _ in eq_cases]
+    mres = model.call_many([["gate_eq", ser.ser_gate(x), ser.ser_gate(y)] for x, y in zip(objs_l, objs_r)])
+    for (l, r, want), x, y, (mg, mr) in zip(eq_cases, objs_l, objs_r, mres):
+        case = {"left": l, "right": r, "kind": "equality"}
+        ctx.seen(case)
+        got = bool(x == y)
+        mv = ser.canon(mr)
+        eqm = mv[0] == "ok" and (mv[1] == "true") == got
+        if not eqm:
+            ctx.disagree("user_equality", case, f"impl {got} model {mv}", mg)
+        if got != want or bool(y == x) != want:
+            ctx.oracle_fail("user_equality", case, f"== is {got} / {bool(y == x)}, the operations are {'equal' if want else 'different'}", eqm)
+    ctx.suite("user_equality", cases=len(eq_cases))
     ctx.sample({"user_gates": sorted(USER_SIG), "example": rand_user_spec(rng, 3)})
 
 
